@@ -19,6 +19,11 @@ Proof.
   do 4 (apply andb_true_iff in T; destruct T as [T _]). rewrite forallb_forall in T. exact (T b Hin).
 Qed.
 
+Lemma dataclass_kinds_ok : str_in dataclass_kw_kind enc_parameter_kinds = true /\ str_in dataclass_other_kind enc_parameter_kinds = true
+  /\ str_in dataclass_self_kind enc_parameter_kinds = true.
+Proof. repeat split; vm_compute; reflexivity.
+Qed.
+
 Lemma inspect_kind_ok : forall k, str_in k inspect_kinds = true -> kind_opt_ok (lookup k inspect_kind_map) = true.
 Proof.
   intros k Hin. apply str_in_In in Hin. pose proof load_tables_ok_holds as T. unfold load_tables_ok in T.
@@ -98,9 +103,28 @@ Proof.
   apply visit_decorator_ok. unfold decos_src_ok in H. rewrite forallb_forall in H. auto.
 Qed.
 
+(* the parameters the dataclasses extension synthesises always have a kind *)
+Theorem synth_parameter_ok : forall p, synth_src_ok p = true -> param_ok (synth_parameter p) = true.
+Proof.
+  intros [n a kw d doc] H. unfold synth_src_ok in H. cbn [sy_annotation sy_default sy_doc] in H.
+  apply andb_true_iff in H. destruct H as [H Hdoc]. apply andb_true_iff in H. destruct H as [Ha Hd].
+  unfold synth_parameter, param_ok. cbn [sy_name sy_annotation sy_kw_only sy_default sy_doc p_kind p_doc p_annotation p_default].
+  destruct dataclass_kinds_ok as [K1 [K2 _]].
+  rewrite Ha, Hd, (build_doc_ok _ Hdoc). destruct kw; [rewrite K1|rewrite K2]; reflexivity.
+Qed.
+
+Theorem synth_init_ok : forall fields, forallb synth_src_ok fields = true -> spec_ok (synth_init fields) = true.
+Proof.
+  intros fields H. unfold synth_init. cbn [spec_ok forallb aval_ok]. destruct dataclass_kinds_ok as [_ [_ K3]].
+  unfold param_ok at 1. cbn [p_kind p_doc p_annotation p_default optdoc_ok aval_ok]. rewrite K3.
+  cbn [andb]. rewrite andb_true_r. apply forallb_forall. intros p Hin. apply in_map_iff in Hin. destruct Hin as [x [<- Hx]].
+  apply synth_parameter_ok. rewrite forallb_forall in H. auto.
+Qed.
+
 Theorem build_spec_ok : forall s, sspec_src_ok s = true -> spec_ok (build_spec s) = true.
 Proof.
-  intros [|bases decos|decos a returns|params returns|value annotation|returns] H; simpl in *; try reflexivity.
+  intros s H. destruct s as [|bases decos|decos a returns|params returns|value annotation|returns|fields];
+    try (apply synth_init_ok; exact H); simpl in *; try reflexivity.
   - apply andb_true_iff in H. destruct H as [Hb Hd]. now rewrite Hb, decos_ok.
   - apply andb_true_iff in H. destruct H as [H Hr]. apply andb_true_iff in H. destruct H as [Hd Ha].
     now rewrite decos_ok, visit_parameters_ok, Hr.
@@ -175,6 +199,10 @@ Definition src_sample : src :=
      ("g", SObj (SInspected [mkSig "x" "POSITIONAL_OR_KEYWORD" (AnnText "int" (Some (AExpr "ExprName" [FStr "int"]))) (DNamed "len");
                              mkSig "rest" "VAR_KEYWORD" AnnEmpty DEmpty] (AnnText "<m.K object at 0x1>" None))
                 "g" "m.g" SNotModule None None None [] []);
+     ("DC", SObj (SClass [] [(AExpr "ExprAttribute" [FList [FExpr "ExprName" [FStr "dataclasses"]; FExpr "ExprName" [FStr "dataclass"]]], mkPos 7 (Some 7%Z))])
+                 "DC" "m.DC" SNotModule (Some 7%Z) (Some 10%Z) None ["dataclass"]
+                 [("__init__", SObj (SDataclassInit [mkSynth "fa" (AStr "int") false (AStr "0") None; mkSynth "fb" (AStr "int") true ANone None])
+                                    "__init__" "m.DC.__init__" SNotModule (Some 0%Z) (Some 0%Z) None [] [])]);
      ("os", SAlias "os" "os" "m.os" (Some 1%Z) (Some 1%Z))].
 
 Example src_sample_ok : src_ok src_sample = true /\ match dump ["w"] (build src_sample) with Done j => validates_doc 64 j = Some true | Raised _ => False end.
